@@ -331,6 +331,42 @@ INFO = {
                      "events still queued (a peer that connects, sends and closes before enqueue() is called)", ["C15", "C03"]),
     "C18-8": ("C18", "(= C09-6 in both listener kinds) the signal threads loop on receive_timeout with `while let`: with a "
                      "producer sending signals every few ms, stop() is not followed by the threads ending", ["C18", "C09"]),
+    "C02-9": ("C02", "decode_size decodes the prefix as u32: a prefix announcing 2^32 bytes or more decodes to n mod 2^32", ["C02"]),
+    "C04-9": ("C04", "the Tcp connector's socket is created without CLOEXEC: with a child process alive (fork+exec while the "
+                     "connection is open) remove() closes the parent's descriptor only and the peer sees no close", ["C04", "C18"]),
+    "C05-9": ("C05", "for_each (sync): the callback mutex is replaced by a two-flag Dekker protocol with Release/Acquire "
+                     "orderings: store-buffer reordering lets both threads in when a signal and a network event become "
+                     "ready within nanoseconds of each other", ["C05"]),
+    "C06-9": ("C06", "receive(): the priority arm is dropped from the blocking select: a send_with_priority to a receiver "
+                     "already blocked in receive() does not wake it", ["C06", "C16"]),
+    "C07-9": ("C07", "receive_timeout returns None at once when now + timeout overflows (Duration::MAX), without looking at "
+                     "the queue", ["C07", "C16"]),
+    "C08-9": ("C08", "send_with_timer increments the shared sequence with load + store: two threads scheduling at the same "
+                     "moment for the same instant get equal TimerIds; one timer is lost, a cancel hits the other", ["C08", "C06"]),
+    "C09-9": ("C09", "for_each (sync) live loop polls with process_poll_events_until_timeout: with traffic arriving every few "
+                     "ms, for_each does not return after stop()", ["C09", "C18"]),
+    "C11-9": ("C11", "the live dispatch takes the callback lock with try_lock and drops the event when a signal callback "
+                     "holds it: Tcp chunks that arrive during a long signal callback are lost", ["C11", "C01", "C05"]),
+    "C13-9": ("C13", "FramedTcp send releases the send lock while waiting on WouldBlock: with several threads and frames "
+                     "larger than the socket buffer another frame lands inside a partly written one", ["C13", "C10", "C01"]),
+    "C14-9": ("C14", "Endpoint equality and hash ignore the address: all peers of one Udp listener compare equal", ["C14", "C12"]),
+    "C15-9": ("C15", "a cached Accepted event is replayed with the connection's own id in place of the listener's id", ["C15", "C03"]),
+    "C16-9": ("C16", "receive_timeout(): the priority arm is dropped from the blocking select: a priority send to a receiver "
+                     "already blocked in receive_timeout() does not wake it", ["C16", "C06"]),
+    "C17-9": ("C17", "Tcp pending() with keepalive configured returns early, before forget(), when the stream is not ready: a "
+                     "peer that resets before the accept is processed makes the adapter close the descriptor twice "
+                     "(abort)", ["C17", "C18", "C03"]),
+    "C18-9": ("C18", "receive_timeout waits the full timeout again after every timer command: with timer commands arriving "
+                     "faster than the 50 ms sampling period the signal thread never looks at the running flag", ["C18", "C09", "C16"]),
+    "C19-9": ("C19", "the last byte of the text is sliced off to test for a digit: a text ending in a multi-byte character "
+                     "panics in to_remote_addr", ["C19"]),
+    "C01-9": ("C01", "FramedTcp receive() stops reading when a read ends exactly on a frame boundary: with a full 65535-byte "
+                     "read ending on a boundary (a 65532-byte payload), frames queued behind it are stranded", ["C01", "C11"]),
+    "C10-9": ("C10", "ResourceRegistry::get uses try_read: while another thread registers or removes a resource on the same "
+                     "node and transport, send() on a live endpoint answers ResourceNotFound and poll events are dropped", ["C10", "C13", "C14"]),
+    "C12-9": ("C12", "the receive_broadcasts listener reads into a 1472-byte buffer: datagrams above 1472 bytes are cut", ["C12", "C13"]),
+    "C03-9": ("C03", "(= C04-7, found again from C03) read_from_remote ignores the result of deregister(): a remove() inside the "
+                     "Message callback, with the peer's close queued behind the data, is followed by a Disconnected", ["C03", "C04"]),
     "C19-5": ("C19", "an ip:port text with port 0 (127.0.0.1:0, [::1]:0) is classified as a string", ["C19"]),
     "C19-1": ("C19", "SocketAddrV6 with non-zero flowinfo/scope_id converted to RemoteAddr: the fields are dropped", ["C19"]),
 }
